@@ -63,6 +63,8 @@ func Interface(ifaceVar interface{}, ctx *iface.IContext, method string, imp int
 		fakeIface = iface.MakeInterface(ctx, funcTabIndex, itabFunc, typ)
 		ctx.Cache(ifaceCacheKey, fakeIface)
 		applyIfaceTo(fakeIface, gen)
+		// 被取消过的上下文再次应用之后重新生效
+		ctx.Activate()
 	}
 	return nil
 }
